@@ -86,6 +86,10 @@ pub fn family(tier: Tier) -> Vec<R> {
         R::node(Tag::SetInt, vec![a.clone(), b.clone()]),
         R::pair(Tag::Sim, a.clone(), b.clone()),
         R::pair(Tag::Sim, b.clone(), a.clone()),
+        R::pair(Tag::Equiv, a.clone(), b.clone()),
+        R::pair(Tag::Equiv, b.clone(), a.clone()),
+        R::pair(Tag::EquivConc, a.clone(), b.clone()),
+        R::pair(Tag::EquivConc, b.clone(), a.clone()),
         R::node(Tag::Product, vec![a.clone(), b.clone()]),
         R::node(Tag::Product, vec![b.clone(), a.clone()]),
         R::pair(Tag::Inh, a.clone(), b.clone()),
@@ -101,7 +105,7 @@ pub fn family(tier: Tier) -> Vec<R> {
         }
     }
     if tier == Tier::Thorough {
-        for s in u::sequences(&items[..8], 3, 3) {
+        for s in u::sequences(&items[..6], 3, 3) {
             out.push(R::node(Tag::SetExt, s));
         }
     }
